@@ -493,6 +493,30 @@ def no_traits(g):
     return "strict<" in txt.replace(" ", "")
 
 
+def contrib_stage(ctx):
+    """contrib side of C11: rules whose analyze_traits live in contrib headers and that have no head in the engine model
+    (raw_string with content rules, rep_one_min_max, predicates, integer rules).  Implementation-side oracle only:
+    harness/c11_contrib.cpp prints, per grammar, the real analyze< G >( -1 ) count and whether any run of the real parser
+    exceeded the rule-attempt budget; 0 problems + a runaway is a violation."""
+    exe = vlib.build_cpp([os.path.join(vlib.VERIF, "harness", "c11_contrib.cpp")], "c11_contrib", flags=["-O1"], compiler="g++")
+    rc, out = vlib.sh([exe, "3" if ctx.tier == "quick" else "4"], timeout=1800)
+    rows = [l.split() for l in out.split("\n") if l.startswith("G ")]
+    if rc != 0 or len(rows) < 22:
+        ctx.diff("c11_contrib harness failed to run to completion", out[-1500:])
+        return
+    cases = 0
+    flagged = loops = 0
+    for _, k, problems, runaway, first, n in rows:
+        cases += int(n)
+        flagged += int(problems) > 0
+        loops += int(runaway)
+        if int(problems) == 0 and int(runaway) == 1:
+            ctx.violation("contrib grammar %s: analyze reports 0 problems but the parser runs away" % k,
+                          "contrib grammar #%s (harness/c11_contrib.cpp): analyze< G >( -1 ) = 0 but parsing input %s exceeds 100000 rule attempts (loop without progress)" % (k, first),
+                          {"stage": "contrib", "grammar_no": int(k), "input_hex": first})
+    ctx.cover(evaluations=cases, distinct=len(rows), validated=0, contrib_grammars=len(rows), contrib_flagged=flagged, contrib_looping=loops)
+
+
 def run(ctx):
     import time
     t0 = time.time()
@@ -627,6 +651,7 @@ def run(ctx):
     ctx.note("C11 statistics: %s" % ", ".join("%s=%d" % kv for kv in sorted(stats.items())))
     ctx.note("converse (not required by the property): of %d grammars with problems reported, %d do loop on some explored input, %d show no loop up to length %d "
              "(analysis is conservative there, e.g. sor alternatives that can never be reached, predicates)" % (stats["flagged"], stats["flagged_and_loops"], stats["flagged_no_loop_found"], maxlen))
+    contrib_stage(ctx)
     ctx.cover(evaluations=n_eval, distinct=stats["grammars"], validated=n_runs,
               rule="grammars: corpus.systematic (incl. maybe_loop, no well-formedness filter%s) + corpus.random_grammars + the C11 ill-formed family "
                    "(every nullable body x every loop head; left recursion through every combinator x 4 recursion shapes); inputs: all strings over {a,b,c} up to length %d; "
@@ -637,6 +662,27 @@ def run(ctx):
 
 
 def replay(j):
+    if (j.get("replay") or {}).get("stage") == "contrib":
+        class _C:
+            tier = "quick"
+
+            def __init__(self):
+                self.v = []
+
+            def violation(self, sig, what, rp):
+                self.v.append(what)
+
+            def diff(self, *a, **k):
+                self.v.append(str(a)[:300])
+
+            def cover(self, **k):
+                pass
+        c = _C()
+        contrib_stage(c)
+        for w in c.v[:5]:
+            print("REPLAY:", w)
+        print("REPLAY: VIOLATION reproduced" if c.v else "REPLAY: not reproduced on the current tree")
+        return 1 if c.v else 0
     r = j["replay"]
     common = prepare_common()
     with tempfile.TemporaryDirectory(prefix="c11-replay-") as wd:
